@@ -182,7 +182,7 @@ pub fn judge_tolerated_faults(w: &Worker, scen: &Scenario, ex: &Exec) -> Judgeme
 
 fn tolerated_fault_jobs(ctx: &Ctx) -> (Vec<(std::sync::Arc<Scenario>, RunSpec, usize)>, usize, Vec<String>) {
     use crate::sup::{Action, Fault};
-    let w = Worker::new(43, &ctx.pool.bins);
+    let w = Worker::new(143, &ctx.pool.bins);
     let mut jobs = vec![];
     let mut errs = vec![];
     let mut nsites = 0;
